@@ -889,6 +889,7 @@ def c08(ctx):
                          [{"assignments": 3, "all_functions": True, "each_function": True, "cpx_generic": True, "full_placeholders": False, "event_every": 300, "event_cap": 2000, "nontrivial_min_ops": 1},
                           {"assignments": 2, "event_every": 300, "event_cap": 1000, "nontrivial_min_ops": 1}],
                          evals=["cpx"], invs=[], lexer={"alphabets": ["lit", "kw2"], "k_quick": 3, "k_thorough": 5},
+                         extra_jobs=lambda profile: [base_job(ctx, "fnpairs", "%s_pairs_cpx" % profile, profile, e="cpx", event_every=40, event_cap=600)],
                          sem={"dec": {"quick": (1, 1, 4, 1), "thorough": (1, 1, 7, 1)}, "invs": ("C08Exact",)})
 
 def c10(ctx):
@@ -900,6 +901,7 @@ def c10(ctx):
         for sh in range(8):
             js.append(dict(base_job(ctx, "replay", "%s_fn_%d" % (profile, sh), profile, beh=vr["beh_path"], e="f64", shard=sh, nshards=8, samples_per_pair=200 if q else 20000,
                                     event_every=50, event_cap=1500)))
+        js += [base_job(ctx, "fnpairs", "%s_pairs_%s" % (profile, e), profile, e=e, event_every=40, event_cap=600) for e in EVALS]
         return js
     f, s = run_jobs(ctx, jobs)
     sv = [("MCVocab", vr["violated"], vr["log"])] if vr["violated"] else []
